@@ -208,6 +208,48 @@ inline void throw_site()
     }
 }
 
+// Raw-memory accounting (opt-in per engine): every block obtained through operator new inside a
+// fault window is remembered until it is deleted; what is still there when a run has destroyed
+// all its objects was leaked by the code under test.  (LeakSanitizer cannot attribute to a run.)
+struct AllocTrack
+{
+    bool enabled = false;
+    static constexpr size_t CAP = 4096;
+    void* blocks[CAP];
+    size_t n = 0;
+    bool overflow = false;
+    void reset()
+    {
+        n = 0;
+        overflow = false;
+    }
+    void add(void* p)
+    {
+        if (n < CAP)
+            blocks[n++] = p;
+        else
+            overflow = true;
+    }
+    void remove(void* p)
+    {
+        for (size_t i = n; i-- > 0;)
+            if (blocks[i] == p)
+            {
+                blocks[i] = blocks[--n];
+                return;
+            }
+    }
+    size_t live() const
+    {
+        return overflow ? 0 : n;
+    }
+};
+inline AllocTrack& atrack()
+{
+    static AllocTrack t;
+    return t;
+}
+
 // RAII: the code under test runs inside a window; harness bookkeeping outside.
 struct FaultWindow
 {
